@@ -272,7 +272,8 @@ int main(int argc, char **argv)
 			if(!nB)
 				continue;
 			struct blk b = B[rnd() % (unsigned)nB];
-			unsigned req = (rnd() % 12 == 0) ? 0 : 1 + (unsigned)(rnd() % (maxsz / 2));
+			unsigned q = (unsigned)(rnd() % 12);
+			unsigned req = q == 0 ? 0 : q == 1 ? maxsz + 1 + (unsigned)(rnd() % 64) : q == 2 ? maxsz : 1 + (unsigned)(rnd() % (maxsz / 2));
 			if(narenas >= max_arenas && req > maxsz / 4)
 				req = 1 + (unsigned)(rnd() % (maxsz / 8));
 			unsigned char *old = ptr_of(b.k, b.off);
